@@ -36,6 +36,8 @@ EXTENDS Integers, FiniteSets
 
 NONE == 0      \* "no configuration" (nil)
 OLD  == -1     \* a submission that carries no configuration: frr re-apply / k8s poke
+REJ  == -2     \* a submission the submitter's own validation rejects (session.Set whose
+               \* createConfig fails): the call returns an error, nothing reaches the debouncer
 
 S0(v) == [v |-> v, config |-> NONE, timerSet |-> FALSE, queued |-> FALSE,
           busy |-> FALSE, inflight |-> NONE,
@@ -69,9 +71,12 @@ PokeEff(s) == [s EXCEPT !.queued = TRUE]
 
 NoConfEff(s) == IF s.v = "frr" THEN OldEff(s) ELSE PokeEff(s)
 
+(* the effect of whatever a submitter carries *)
+AnyEff(s, x) == IF x = REJ THEN s ELSE IF x = OLD THEN NoConfEff(s) ELSE SubmitEff(s, x)
+
 (* a submitter is only ever held up by a running reload (the debouncer     *)
 (* goroutine is inside body / Reconcile holds the lock)                    *)
-EffectAllowed(s, x) == ~s.busy \/ (s.v = "k8s" /\ x = OLD)
+EffectAllowed(s, x) == ~s.busy \/ x = REJ \/ (s.v = "k8s" /\ x = OLD)
 
 ----------------------------------------------------------------------------
 (* Timer expiry and the reload action                                      *)
